@@ -54,6 +54,7 @@ pub fn main(args: &Args) -> i32 {
             Cfg { out_of_order_tolerance: 4, maximum_forward_distance: 14, ..Cfg::default() },
             Cfg { out_of_order_tolerance: 12, maximum_forward_distance: 5, ..Cfg::default() },
             Cfg { out_of_order_tolerance: 3, maximum_forward_distance: 30, max_past_epochs: 3, ..Cfg::default() },
+            Cfg { max_past_epochs: 7, ..Cfg::default() },
         ],
         ..SetupOpts::default()
     };
@@ -68,7 +69,7 @@ pub fn main(args: &Args) -> i32 {
     let spec = Spec {
         id: "C02",
         level: "exploration",
-        rule: "C01-style plans enriched with application messages; judged per (message, receiver) pair after quiescence against the sender's rumor; bursts of up to 16 messages by one member and small non-default sender-ratchet windows (out-of-order tolerance 3..12, forward distance 5..30, past epochs 3) make the window boundaries reachable: a message is don't-care only if it may lie outside the receiver's configured window for some ratchet position between 0 and the highest position handed over before, otherwise it must be stored; non-trivial = a message first handed to a receiver after the receiver changed epoch, or a message of a losing branch held by a converged client; distinct = distinct plans".into(),
+        rule: "C01-style plans enriched with application messages; judged per (message, receiver) pair after quiescence against the sender's rumor; bursts of up to 16 messages by one member and small non-default sender-ratchet windows (out-of-order tolerance 3..12, forward distance 5..30, past epochs 3 and 7) make the window boundaries reachable: a message is don't-care only if it may lie outside the receiver's configured window for some ratchet position between 0 and the highest position handed over before, otherwise it must be stored; non-trivial = a message first handed to a receiver after the receiver changed epoch, or a message of a losing branch held by a converged client; distinct = distinct plans".into(),
         assumptions: vec![
             "only members that agree with the reference replica's final state are judged (divergence itself is C01's subject)".into(),
             "deliveries more than max_past_epochs epochs late are don't-care".into(),
